@@ -167,6 +167,19 @@ def run(chk):
             work.append((cfg, s, chk.seed * 7919 + len(work)))
     classes(space["src"][0], space["ev"][0], False, False)
     res = V.pmap(execute, work)
+    # a real-thread run that ended in a mailbox timeout is run again, alone (the pool is gone): on a busy machine a thread that is
+    # starved for the length of the timeout looks like a hang; a hang that is really there shows again (and the runs under the
+    # deterministic scheduler, where timeouts never fire, cover the schedule-dependent ones)
+    retried = 0
+    for i, rr in enumerate(res):
+        if rr["err"] and "Timeout" in rr["err"] and not rr["setting"]["dsched"]:
+            for _ in range(2):
+                retried += 1
+                r2 = execute(work[i])
+                if not (r2["err"] and "Timeout" in r2["err"]):
+                    res[i] = r2
+                    break
+    chk.extra["real_thread_runs_repeated_after_a_timeout"] = retried
     traces, idx = [], []
     for i, rr in enumerate(res):
         cfg, s = rr["cfg"], rr["setting"]
